@@ -3576,16 +3576,53 @@ class NetCDFWrite(IOWrite):
                             # off any group structure from the name.
                             ncdim = self._remove_group_structure(ncdim)
 
-                        ncdim = self._netcdf_name(ncdim)
-
                         unlimited = self._unlimited(f, axis)
-                        self._write_dimension(
-                            ncdim, f, axis, unlimited=unlimited
-                        )
 
-                        ncdim_size_to_spanning_constructs.append(
-                            {(ncdim, axis_size0): spanning_constructs}
-                        )
+                        if (
+                            self.implementation.nc_get_dimension(
+                                domain_axis, None
+                            )
+                            is not None
+                            and unlimited
+                            == (ncdim in g.get("unlimited_ncdims", ()))
+                            and g["ncdim_to_size"].get(ncdim) == axis_size0
+                            and ncdim not in g["axis_to_ncdim"].values()
+                            and not any(
+                                v["ncvar"] == ncdim for v in seen.values()
+                            )
+                            and not any(
+                                ncdim in x
+                                for x in g["dimensions_with_role"].values()
+                            )
+                            and self._dimension_in_subgroup(f, ncdim)
+                        ):
+                            # The axis asks for the name of a netCDF
+                            # dimension of the same size that is
+                            # already in the dataset, has no
+                            # coordinate variable, is not a bounds or
+                            # string-length dimension, and is not used
+                            # by another axis of this construct, and is
+                            # unlimited or not like the axis: use that
+                            # dimension rather than creating a renamed
+                            # copy of it. (This is what allows all
+                            # external variables of a parent file to
+                            # keep the parent's dimension names in the
+                            # external file.)
+                            g["axis_to_ncdim"][axis] = ncdim
+                        else:
+                            ncdim = self._netcdf_name(ncdim)
+
+                            self._write_dimension(
+                                ncdim, f, axis, unlimited=unlimited
+                            )
+                            if unlimited:
+                                g.setdefault("unlimited_ncdims", set()).add(
+                                    ncdim
+                                )
+
+                            ncdim_size_to_spanning_constructs.append(
+                                {(ncdim, axis_size0): spanning_constructs}
+                            )
 
         if field:
             field_data_axes = tuple(self.implementation.get_field_data_axes(f))
